@@ -66,6 +66,7 @@ FIXED = [
     ('D48', 'C02', 'only the leading component of a scoped name', "a qualified name whose last component is spelled like a template parameter (nsT::TT with TT a parameter) was rewritten (nsT::aab5): any component, not only the leading one, was taken for the parameter"),
     ('D52', 'C10', 'no longer crashes the MATLAB generator', "MATLAB generation raised TypeError (unhashable type: 'Typename') for a constructor or free-function parameter whose template argument is a template parameter (A(std::vector<T> x)): the instantiator stored a Typename object in Typename.name"),
     ('D53', 'C16', 'wrap_submodule writes <stem>.cpp also for an interface file called', "wrap_submodule of an additional interface file called <name>.h wrote its C++ to a file <name>.h in the working directory (over the input when run next to it) instead of <name>.cpp"),
+    ('D54', 'C02', 'T::Rebind<int>', "a scoped use of a template parameter whose member is itself a template-id (T::Rebind<int>) crashed the instantiator (AttributeError: 'TemplatedType' object has no attribute 'is_basic')"),
 ]
 
 # open findings: key, property, probe handler, what (printed in the KNOWN-FINDING line), mechanism, witness builder
